@@ -16,9 +16,12 @@ def run(res, pool, tier, seed):
     jobs = [dict(module="MC_Flat.tla", tag="flat", invariants=["Typed", "Symmetric", "Emit"], timeout=3600,
                  constants=dict(B=1, KA=set(FLAT), KB=set(FLAT), SEED=sd, NSHARD=6 if q else 1, NBORING=8 if q else 2)),
             dict(module="MC_FlatBody.tla", tag="flatbody", invariants=["Typed", "Emit"], timeout=3600,
-                 constants=dict(GENK=set(), NGEN=1, S=2, BODIES=set(POLYH + POLYG), KF=set(FLAT), SEED=sd + 1, NSHARD=90 if q else 8, NXCHECK=1000)),
+                 constants=dict(SA=2, OFF=0, GENK=set(), NGEN=1, S=2, BODIES=set(POLYH + POLYG), KF=set(FLAT), SEED=sd + 1, NSHARD=90 if q else 8, NXCHECK=1000)),
             dict(module="MC_BodyBody.tla", tag="bodybody", invariants=["Typed", "Symmetric", "Emit"], timeout=7200, batch=40,
-                 constants=dict(GENK=set(), NGEN=1, S=2, BODIES1=set(POLYH + POLYG), BODIES2=set(POLYH + POLYG), T=2, SEED=sd + 2, NSHARD=40 if q else 4))]
+                 constants=dict(SA=2, OFF=0, GENK=set(), NGEN=1, S=2, BODIES1=set(POLYH + POLYG), BODIES2=set(POLYH + POLYG), T=2, SEED=sd + 2, NSHARD=40 if q else 4))]
+    jobs.append(dict(module="MC_BodyBody.tla", tag="nested", invariants=["Typed", "Symmetric", "Emit"], timeout=3600, batch=40,
+                     constants=dict(SA=6, OFF=2, GENK=set(), NGEN=1, S=2, BODIES1={"cube", "octa", "ppyr"}, BODIES2={"cube", "tet2", "sq", "triObl"},
+                                    T=1, SEED=sd + 3, NSHARD=8 if q else 1)))
     engine.run_jobs(res, jobs, pool)
     import traces
     traces.run_for(res, ["unit_tests", "driver"], {"C04"}, seed=seed + 9, nsessions=250 if q else 2500)
@@ -36,7 +39,7 @@ def replay_case(case, tag, rng, tier):
     out["cls"] = "%s|%s|%s" % (a["k"], b["k"], exp["k"])
     pose = common.poses_for((a, b, exp), rng, 1, s)[rng.randint(0, 1)]
     num = common.num_for(rng, pose, (a, b))
-    la, lb = build(a, pose, num), build(b, pose, num)
+    la, lb = common.build_variant(a, pose, num, rng), common.build_variant(b, pose, num, rng)
     calls = [("func", a, b, lambda: G.intersection(la, lb)), ("func", b, a, lambda: G.intersection(lb, la))]
     if a["k"] != "Point":
         calls.append(("method", a, b, lambda: la.intersection(lb)))
